@@ -67,6 +67,12 @@ add("C07", "fault_enumeration", "pairwise comparison of the strict-mode and warn
     "problem and the problem's class and details (captured at observation time) must coincide.",
     "No model needed; cases in which both modes fail with the same internal error are left to C06/C08.", "DESIGN.md 4/C07")
 
+add("C08", "fault_enumeration", "model-free tiling monitor over the warn-mode boundary trace (byte accounting, region ends, surplus) + allowed-abort check + lenient reference for value-only cases; constraint shadow names the failure mechanism",
+    "Warn-mode decodes of every fault class (size, value, truncation, suffix, small-alphabet exhaustive, mutations, streams with a "
+    "malformed message in the middle) are checked by rules T1-T7 and M1/M3; each violation is keyed by the first bookkeeping fault "
+    "seen by the hooked constraint state.",
+    "Size fields are recognised from the declared type of the parent event. Known finding D10 (assertion on the encryption flag).", "DESIGN.md 4/C08")
+
 NOT_YET = "monitor not built yet in this phase; will be claimed once validated on the unchanged tree"
 
 
